@@ -21,12 +21,12 @@ CHECKS = {
 
 CHECKS.update({
     "C03": dict(
-        technique="Coq proof (every protocol's reply writer is well-formed for ANY message bytes; error statuses carry no body) + correspondence vs real filenotfound/write_status/handle + Coq validators run on real traffic + malformed-stream / history oracle",
+        technique="Coq proof (every protocol's reply writer is well-formed for ANY message bytes; error statuses carry no body) + correspondence vs real filenotfound/write_status/handle + Coq validators run on real traffic + malformed-stream / same-process history / long-run growth oracle + live-socket leg on the real server",
         text="Theorems over the model of each protocol's response writers (Model/Respond.v) and validators written from the protocol documents (Model/Wellformed.v): for every outcome of the handler chain (not-found, I/O error, document, directory) and every message/body byte string the reply is syntactically valid for its protocol, Gemini/Spartan error replies are exactly one status line. The model is compared with the real writers on thousands of messages and with real end-to-end replies; the Coq validators are run over every reply of the request stream. Totality of the handler chain, history independence and the time bound are decided by the oracle search (hand-written malformed stream per protocol, climbers, every path of generated trees, random bytes, 260+ histories), not by theorems.",
         note="Trusts: Coq kernel; in-process driver; the handler chain's totality is searched, not proved (partial for that clause); wall-clock bound is runtime (measured). Two genuine history dependences are recorded as known findings.",
         ref="6/C03, 12"),
     "C04": dict(
-        technique="Coq proof (chunked copy = identity, decimal round trip, Gopher+ length, HEAD, WML invertibility, MIME precedence) + correspondence vs real code + byte-for-byte oracle over sizes around the copy block",
+        technique="Coq proof (chunked copy = identity, decimal round trip, Gopher+ length, HEAD, WML invertibility, MIME precedence) + correspondence vs real code + byte-for-byte oracle over sizes around the copy block, look-alike documents and a live decompression leg on a real socket",
         text="Theorems for all file contents and sizes: concatenating the 4096-byte chunks gives the file; a reference client reading each protocol's response gets exactly the file's bytes; the Gopher+ length header parses to the number of body bytes (unknown-length marker for transforming handlers); HEAD is GET's header block with an empty body; the WML text conversion is decodable line by line; the advertised type is the table type of the name with the documented precedence. Compared with the real code on files of sizes 0,1,4095..12289,1 MiB, binary/CRLF/invalid UTF-8 contents, awkward names, all protocols, two handler lists; mimetypes.guess_type compared exhaustively over the loaded tables.",
         note="Trusts: Coq kernel; CPython UTF-8 codec for the WML model (code points); mimetypes tables as Section variables instantiated from the real module; decompression/TAL output taken as given; dates masked.",
         ref="6/C04, 12"),
@@ -56,12 +56,12 @@ CHECKS.update({
         note="Trusts: Coq kernel; pickle round trip is the identity on entry lists (checked through rendered listings); file mtime = time of the write; gen is a Section variable.",
         ref="6/C10, 12"),
     "C11": dict(
-        technique="Coq proof (repaired step: any undecodable cache content is a miss and is rewritten, for all histories) + exhaustive fault enumeration on the real code (every prefix length)",
+        technique="Coq proof (repaired step: any undecodable cache content is a miss and is rewritten, a failing cache write never changes the reply, for all histories) + exhaustive fault enumeration on the real code (every prefix length, persistent write faults at every cut point)",
         text="Theorems: for the repaired loadcache, any strict prefix of a complete file and any undecodable content of any age is a cache miss that regenerates the listing and stores a fresh complete entry; the code never fails whatever the damage; the pinned code is refuted. The two codec facts needed (round trip, strict prefixes fail) are Section hypotheses discharged for a toy codec and checked exhaustively for real pickle on every prefix of every produced cache file. The real code is run on EVERY prefix length 0..size and zero/0xFF-filled files of each cache file (exhaustive), plus the ZIP index cache files.",
         note="Trusts: Coq kernel; real pickle's framing is checked exhaustively per file, not proved; only dbm.dumb exists here so the ZIP shelve cache is never re-read (recorded).",
         ref="6/C11, 12"),
     "C12": dict(
-        technique="Coq proof (filter-map loop keeps every non-faulty child in order for all name lists and fault assignments) + fault injection on real trees",
+        technique="Coq proof (filter-map loop keeps every non-faulty child in order for all name lists and fault assignments, incl. children whose entry cannot be built) + fault injection on real trees (fault at the k-th file-system call made for a child, FIFOs as sidecars, hostile names, logger on)",
         text="Theorems for all name lists and all fault assignments: the repaired child loop returns Ok, the survivors are exactly the non-faulty names in their original order each with the entry its handler built (DirHandler and UMN child loop); a child can only fail with FileNotFound; the pinned mapM loop is refuted. Fault injection on the real code: every entry position x {dangling symlink, FIFO, socket, names with .. or ./, dot-named specials, stat failing with ENOENT/EACCES after enumeration} x singles and pairs x 9 protocols x both handlers.",
         note="Trusts: Coq kernel; the security filter comes from Gen/Secure.v; which stat failures exist is an input to the model.",
         ref="6/C12, 12"),
@@ -82,12 +82,12 @@ CHECKS.update({
         note="Trusts: Coq kernel; zipfile (archive -> member list done by the real library); byte equality of rendered responses (same_site) is oracle only; link targets with . or empty components are covered by K and the oracle only.",
         ref="6/C16, 12"),
     "C19": dict(
-        technique="Coq proof by exhaustive kernel computation over the finite configuration x failure-position domain on an IR regenerated from initialization.py (translator) + exhaustive correspondence with the real start-up under substituted OS calls",
+        technique="Coq proof by exhaustive kernel computation over the finite configuration x failure-position domain on an IR regenerated from initialization.py and the server constructor of server.py (translator) + exhaustive correspondence with the real start-up under substituted OS calls",
         text="The start-up code (initialize, init_security, get_server) is translated on every run into a small IR with a big-step semantics; over all 96 option combinations x every external call failing in turn (3 error classes) it is proved by computation in the kernel (lifted with forallb_forall, the bound is in the statement) that bind and key loading precede every privilege change, chroot < setgroups < setregid < setreuid, setgroups present iff uid or gid, chroot is followed by root:=/ and chdir(/) before any identity change, and a failure at any position aborts with exactly the calls made so far. The real functions are run under recording fakes for all 4682 (configuration, failure) pairs and compared with the IR semantics.",
         note="Trusts: Coq kernel (vm_compute casts); translator gen_init.py (IR shape, fail-closed); substituted os/pwd/grp/ssl entry points.",
         ref="6/C19, 12"),
     "C20": dict(
-        technique="Coq proof (containment, logging under the failure's own class, with-brackets closed, for every response shape, fault index, error class, protocol) + translator (handler clauses, open() sites) + exhaustive fault injection at every write index",
+        technique="Coq proof (containment, logging under the failure's own class, with-brackets closed, for every response shape, fault index, error class, protocol) + translator (handler clauses, open() sites, write sites reachable from protocol classification) + exhaustive fault injection at every write index",
         text="Theorems by induction over any list of write/bracket actions, any fault index, any error class and any protocol class: nothing propagates past the connection handler; every record logged after the fault carries the client address and the failure's own class (pinned args[1] handlers refuted); every with-bracket is closed on every path; the non-with open sites in the source equal the listed reference-counted resources (translator). The real handler is driven with a wfile failing at EVERY write index of documents, menus, error pages, Gopher+ info, mailbox and ZIP replies x EPIPE/ECONNRESET/one-argument timeout x protocols; log records and /proc/self/fd are checked.",
         note="Trusts: Coq kernel; translator gen_conn.py; descriptor release of mailbox/ZIP objects happens at garbage collection (runtime, recorded separately; partial for that clause).",
         ref="6/C20, 12"),
